@@ -135,6 +135,20 @@ static std::string run_generic(const std::string& ad, const std::string& cat, bo
             o.add(0, val_of(x), false);
         return fin(o, orig);
     }
+    if (ad == "ec")
+    {
+        // the pair is bound to a const reference (`for (const auto& p : enumerate(c))`): it still names the element
+        Alias al;
+        for (const auto& p : nitro::lang::enumerate(c))
+        {
+            o.add(p.index(), val_of(p.value()), true);
+            if constexpr (std::is_reference<decltype(p.value())>::value)
+                al.add(p.value());
+            else
+                return "CONST-PAIR-HANDS-OUT-A-COPY";
+        }
+        return fin(o, orig) + al.verdict(c, false);
+    }
     if (ad == "ek")
     {
         // every proxy is kept while the iterator (still alive at the end) walks on; they are read afterwards:
